@@ -196,6 +196,16 @@ func CloneNode(node ast.Node) ast.Node {
 	case *ast.Raw:
 		return ast.NewRaw(ClonePosition(n.Position), n.Marker, n.Tag, CloneNode(n.Text).(*ast.Text))
 
+	case *ast.Return:
+		var values []ast.Expression
+		if n.Values != nil {
+			values = make([]ast.Expression, len(n.Values))
+			for i, v := range n.Values {
+				values[i] = CloneExpression(v)
+			}
+		}
+		return ast.NewReturn(ClonePosition(n.Position), values)
+
 	case *ast.Select:
 		var text *ast.Text
 		if n.LeadingText != nil {
@@ -244,27 +254,6 @@ func CloneNode(node ast.Node) ast.Node {
 		}
 		return ast.NewStatements(ClonePosition(n.Position), nodes)
 
-	case *ast.StructType:
-		var fields []*ast.Field
-		if n.Fields != nil {
-			fields = make([]*ast.Field, len(n.Fields))
-			for i, field := range n.Fields {
-				var idents []*ast.Identifier
-				if field.Idents != nil {
-					idents = make([]*ast.Identifier, len(field.Idents))
-					for j, ident := range field.Idents {
-						idents[j] = CloneExpression(ident).(*ast.Identifier)
-					}
-				}
-				var typ ast.Expression
-				if field.Type != nil {
-					typ = CloneExpression(field.Type)
-				}
-				fields[i] = ast.NewField(idents, typ, field.Tag)
-			}
-		}
-		return ast.NewStructType(ClonePosition(n.Position), fields)
-
 	case *ast.Switch:
 		var init ast.Node
 		if n.Init != nil {
@@ -290,6 +279,10 @@ func CloneNode(node ast.Node) ast.Node {
 			copy(text, n.Text)
 		}
 		return ast.NewText(ClonePosition(n.Position), text, n.Cut)
+
+	case *ast.TypeDeclaration:
+		ident := CloneExpression(n.Ident).(*ast.Identifier)
+		return ast.NewTypeDeclaration(ClonePosition(n.Position), ident, CloneExpression(n.Type), n.IsAliasDeclaration)
 
 	case *ast.TypeSwitch:
 		var init ast.Node
@@ -439,6 +432,9 @@ func CloneExpression(expr ast.Expression) ast.Expression {
 	case *ast.MapType:
 		expr2 = ast.NewMapType(ClonePosition(e.Pos()), CloneExpression(e.KeyType), CloneExpression(e.ValueType))
 
+	case *ast.Placeholder:
+		expr2 = ast.NewPlaceholder()
+
 	case *ast.Render:
 		n := ast.NewRender(ClonePosition(e.Position), e.Path)
 		if e.Tree != nil {
@@ -455,6 +451,27 @@ func CloneExpression(expr ast.Expression) ast.Expression {
 	case *ast.Slicing:
 		expr2 = ast.NewSlicing(ClonePosition(e.Position), CloneExpression(e.Expr), CloneExpression(e.Low),
 			CloneExpression(e.High), CloneExpression(e.Max), e.IsFull)
+
+	case *ast.StructType:
+		var fields []*ast.Field
+		if e.Fields != nil {
+			fields = make([]*ast.Field, len(e.Fields))
+			for i, field := range e.Fields {
+				var idents []*ast.Identifier
+				if field.Idents != nil {
+					idents = make([]*ast.Identifier, len(field.Idents))
+					for j, ident := range field.Idents {
+						idents[j] = CloneExpression(ident).(*ast.Identifier)
+					}
+				}
+				var typ ast.Expression
+				if field.Type != nil {
+					typ = CloneExpression(field.Type)
+				}
+				fields[i] = ast.NewField(idents, typ, field.Tag)
+			}
+		}
+		expr2 = ast.NewStructType(ClonePosition(e.Position), fields)
 
 	case *ast.TypeAssertion:
 		expr2 = ast.NewTypeAssertion(ClonePosition(e.Position), CloneExpression(e.Expr), CloneExpression(e.Type))
